@@ -642,7 +642,9 @@ pub fn c13(ctx: &mut Ctx) {
             l.evals += 1;
             l.states += 1;
             l.sample(|| format!("{} built with padding {} ({})", cfg.short(), n, if owned { "owned" } else { "borrowed" }));
-            let built = match super::common::build_bytes(l, "builder-padded", &cfg, crate::subject::build::Variant::new(owned, crate::subject::build::Wrap::None)) {
+            // odd bases: the padding is requested after the content, with the builder queried after every call
+            let flavour = crate::subject::build::Variant { pad_last: b % 2 == 1, probe: b % 2 == 1, ..crate::subject::build::Variant::new(owned, crate::subject::build::Wrap::None) };
+            let built = match super::common::build_bytes(l, "builder-padded", &cfg, flavour) {
                 Some(super::common::Built::Bytes(b)) => b,
                 _ => {
                     l.hit("builder refused or failed (other properties' domain)");
